@@ -18,42 +18,42 @@ Print Assumptions C10_monitor.
    index recorded for it (the node's own at the validator API), carries exactly that share's
    signature over the object's own signing root, passed the proposal/selection-proof checks, and
    -- from a peer -- belongs to a duty inside the gater window. *)
-Theorem C10_admitted_valid : forall l, accepts l = true ->
+Theorem C10_accepted_valid : forall l, accepts l = true ->
   forall call d, In call (l_calls l) -> In d call ->
   d_valid d = true /\
   (match l_ent l with VApi self => d_idx d = self | Peer g _ => gate_ok g = true end) /\
   exists it sh, In it (l_items l) /\ i_who it = Some (d_v d) /\ i_root it = d_root d /\ i_raw it = false /\
     i_prop it = true /\ i_inner it = true /\
     lookup (d_v d) (l_lock l) = Some sh /\ In (d_idx d) sh /\ i_sig it = GSig (d_v d) (d_idx d) (d_root d).
-Proof. exact admitted_valid. Qed.
-Print Assumptions C10_admitted_valid.
+Proof. exact accepted_valid. Qed.
+Print Assumptions C10_accepted_valid.
 
-(* The rule: starting from an admitted submission, any change of the signed content, of the
+(* The rule: starting from a submission the rule lets in, any change of the signed content, of the
    signing root (domain, fork, epoch), of the share index, of the validator, or of the signature
    (another share's, zero, garbage) is refused.  Injectivity of the signing root is a hypothesis. *)
 Theorem C10_alteration_rejected : forall (content : Type) (sroot : content -> N),
   (forall c c', sroot c = sroot c' -> c = c') ->
   forall lock v i c s,
-  admit lock v i (sroot c) s = true ->
-  (forall c', c' <> c -> admit lock v i (sroot c') s = false)
-  /\ (forall rho, rho <> sroot c -> admit lock v i rho s = false)
-  /\ (forall j, j <> i -> admit lock v j (sroot c) s = false)
-  /\ (forall v', v' <> v -> admit lock v' i (sroot c) s = false)
-  /\ (forall s', s' <> s -> admit lock v i (sroot c) s' = false)
-  /\ admit lock v i (sroot c) GZero = false.
+  lets_in lock v i (sroot c) s = true ->
+  (forall c', c' <> c -> lets_in lock v i (sroot c') s = false)
+  /\ (forall rho, rho <> sroot c -> lets_in lock v i rho s = false)
+  /\ (forall j, j <> i -> lets_in lock v j (sroot c) s = false)
+  /\ (forall v', v' <> v -> lets_in lock v' i (sroot c) s = false)
+  /\ (forall s', s' <> s -> lets_in lock v i (sroot c) s' = false)
+  /\ lets_in lock v i (sroot c) GZero = false.
 Proof. exact alteration_rejected. Qed.
 Print Assumptions C10_alteration_rejected.
 
 Theorem C10_unknown_or_out_of_range_rejected : forall lock v i rho s,
-  (lookup v lock = None -> admit lock v i rho s = false) /\
-  (forall sh, lookup v lock = Some sh -> ~ In i sh -> admit lock v i rho s = false).
+  (lookup v lock = None -> lets_in lock v i rho s = false) /\
+  (forall sh, lookup v lock = Some sh -> ~ In i sh -> lets_in lock v i rho s = false).
 Proof. exact unknown_or_out_of_range_rejected. Qed.
 Print Assumptions C10_unknown_or_out_of_range_rejected.
 
 (* The verifier the code runs agrees with the rule. *)
 Theorem C10_verifier_is_rule : forall lock v i raw rho s,
-  verify_share lock v i raw rho s = None <-> raw = false /\ admit lock v i rho s = true.
-Proof. exact verify_share_admit. Qed.
+  verify_share lock v i raw rho s = None <-> raw = false /\ lets_in lock v i rho s = true.
+Proof. exact verify_share_rule. Qed.
 Print Assumptions C10_verifier_is_rule.
 
 (* One bad entry in a peer message (or in a validator-API request): no subscriber receives
